@@ -35,6 +35,7 @@ PROPS = {
     ),
     'C04': dict(
         families=['codec'], reports=['codec_dec'], consts=True,
+        reference_reports={'codec_dec': 'the model decoder is proved to yield exactly the tokens of the longest prefix of complete encodings, to end cleanly only on the whole input and to fail with the stated error at the offset of the unreadable field (c04_*): a different token list, outcome, error kind or offset on an input is a failure of the property on that input'},
         proof_files=CODEC,
         theorems='c04_total, c04_exact, c04_prefix_free, c04_no_silent_truncation, c04_limit_boundary, c04_cmp_same_language',
         assumptions=['byte strings up to 70000 bytes in the correspondence; theorems unbounded'],
@@ -54,6 +55,7 @@ PROPS = {
     ),
     'C09': dict(
         families=['hash'], reports=['hash'], consts=True,
+        reference_reports={'hash': 'the model hash machine is proved equal to the specified Merkle function for every hash function (c09_*): a different digest on an input is a failure of the property on that input'},
         proof_files=HASH,
         theorems='c09_sink, c09_sink_first_value, c09_sink_last_event, c09_fill, c09_build_with_hash, c09_empty, c09_unclosed, c09_injective (for every hash function H)',
         assumptions=['digests are compared inside Coq for FNV-128 / FNV-128a (Base/Fnv.v); sha256, sha1, md5 and seeded maphash against an independent Go reference of the Merkle function',
@@ -78,7 +80,7 @@ PROPS = {
         assumptions=['Tee side sinks in the adequacy theorem are plain recorders (tame); failing side sinks are covered by C15'],
     ),
     'C14': dict(
-        families=['streams'], reports=['copy'],
+        families=['streams'], reports=['copy', 'proc'],
         proof_files=STREAMS,
         theorems='c14_copy_delivery, c14_copy_pulls, c14_copy_no_sinks, c14_filter_sink, c14_concat_sinks, c14_concat_sinks_nary, c14_alt_sink, c14_alt_empty_accepts, c14_collect_value, c14_collect_value_stray_end, c14_collect_value_unclosed, c14_tee_transparent',
         assumptions=['a sink that never returns nil makes Copy/Tee re-deliver the end-of-stream signal forever; such sinks are outside the quantifier (recording sinks return nil on EOS)'],
@@ -121,6 +123,7 @@ PROPS = {
     ),
     'C20': dict(
         families=['json'], reports=['json'],
+        reference_reports={'json': 'the model token map is proved to emit exactly the mirroring stream of the document (c20_mirror) and the literal conversions are proved exact (c20_literal_*)'},
         proof_files=['Proofs/JsonP.v'],
         theorems='c20_mirror, c20_mirror_map, c20_several_documents, c20_truncated, c20_truncated_document, c20_mirror_wf, c20_literal_int_range, c20_literal_uint_range, c20_literal_not_int',
         assumptions=['encoding/json\'s tokenizer (Decoder.Token with UseNumber) is a contract: json_tokens',
@@ -130,12 +133,12 @@ PROPS = {
     ),
     'C01': dict(
         families=['typed'], reports=['marshal', 'unmarshal'], consts=True,
-        proof_files=TYPED_U,
-        theorems='c01_marshal_total, c01_roundtrip_tokens_partial, c01_roundtrip_tokens_fuel, c01_roundtrip_exact (+ c01_registered_pointer_refuted, c01_registered_time_refuted); the byte route composes with c02_decode_encode',
-        assumptions=['PARTIAL as a theorem: round trip proved for the universe without maps / interfaces / tuple funcs (simple_ty) and for registered types whose underlying type is not a pointer or time.Time (reg_ok); maps, interfaces and tuple funcs are decided by the correspondence (marshal and unmarshal models evaluated in Coq on every generated case) and the Go round-trip oracle, through tokens and through the byte codec with every writer/reader flavour',
-                     'known finding: a non-nil pointer to a nil pointer (no_ptr_to_nil in the theorem)',
+        proof_files=TYPED_U + ['Proofs/AnyP.v', 'Proofs/RoundTripFullP.v'],
+        theorems='c01_marshal_total, c01_roundtrip_full_partial(_fuel, _stable) [maps, interface positions, tuple funcs], c01_roundtrip_tokens_partial / _fuel / c01_roundtrip_exact [functional normal form on simple_ty], c01_equiv_normal, c01_registered_*_roundtrip, c01_bytes_key_in_any (+ c01_roundtrip_full_refuted, c01_refuted_outside_domain: the six edges of the domain); the byte route composes with c02_decode_encode',
+        assumptions=['PARTIAL as a theorem: not covered by c01_roundtrip_full_partial are interface values nested below the top of a map key, registered types nested inside []any / map[string]any held in an interface, tuple funcs with more than 50 results, embedded fields; these are decided by the correspondence (marshal and unmarshal models evaluated in Coq on every generated case) and the Go round-trip oracle, through tokens and through the byte codec with every writer/reader flavour',
+                     'known findings: a non-nil pointer to a nil pointer / nil interface; an array that is not a byte array in an interface-typed map key',
                      'a nil tuple func with results is outside the quantifier (nil positions listed there: pointer/slice/map/interface)',
-                     'time.Time is modelled as an opaque value bridged through its MarshalBinary image'],
+                     'the reader registry knows every registered dynamic type of the value (dom); time.Time is modelled as an opaque value bridged through its MarshalBinary image'],
     ),
     'C05': dict(
         families=['typed'], reports=['unmarshal'], consts=True,
